@@ -63,7 +63,7 @@ Theorem literal_fraction_nearest t :
   String.eqb (grp t 2) "" = false ->
   (String.eqb (grp t 5) "" = false \/ (String.eqb (grp t 7) "" = false /\ signed_Z (grp t 7) < 0)) ->
   let '(p, q) := literal_rational (grp t 2) (grp t 5) (grp t 7) in
-  literal_value t = if f_is_inf (q2f p q) then None else Some (VFloat (q2f p q)).
+  literal_value t = Some (VFloat (q2f p q)).
 Proof.
   intros H2 H. unfold literal_value, literal_rational. rewrite H2. cbn [negb].
   rewrite sdec_signed, !dec_digits.
